@@ -9,6 +9,7 @@ import (
 	"runtime"
 	"strings"
 	"sync"
+	"sync/atomic"
 
 	"github.com/btcsuite/btcd/btcec/v2"
 	"github.com/btcsuite/btcd/btcec/v2/schnorr"
@@ -146,8 +147,10 @@ func netAccepts(n netID, a wdAddr) bool {
 	return false
 }
 
+var c17ScriptMutations atomic.Int64
+
 func runC17(r *mc.Run) {
-	r.Rule = "deposit side: 11 relayer keys (6 ECDSA of both parities, 5 x-only) x 6 EVM addresses x 4 networks x versions 0/1 x 3 magic prefixes: address and data script from the real Query/DepositAddress handler and from the builders -> script via btcd -> the real verifier must accept for the generating (key, address) and reject for every other pair of the alphabet (full cross product); withdrawal side: hand-encoded p2pkh/p2sh/p2wpkh/p2wsh/p2tr addresses of 4 networks, pay-to-pubkey strings, every single-character substitution from a 4-symbol menu, decoded for every network by the real DecodeBtcAddress and end-to-end through ProcessBridgeRequest"
+	r.Rule = "deposit side: 11 relayer keys (6 ECDSA of both parities, 5 x-only) x 6 EVM addresses x 4 networks x versions 0/1 x 3 magic prefixes: address and data script from the real Query/DepositAddress handler and from the builders -> script via btcd -> the real verifier must accept for the generating (key, address) and reject for every other pair of the alphabet (full cross product), and must reject every single-byte substitution (255 values x every position), truncation and extension of the handed-out scripts for the generating pair; withdrawal side: hand-encoded p2pkh/p2sh/p2wpkh/p2wsh/p2tr addresses of 4 networks, pay-to-pubkey strings, every single-character substitution from a 4-symbol menu, decoded for every network by the real DecodeBtcAddress and end-to-end through ProcessBridgeRequest"
 	r.Assumptions = []string{"btcd address/script encoding trusted as reference decoder for mutated strings", "hash functions trusted"}
 	keys, evms := c17Keys(6, 5), c17Evms(6)
 	if r.Thorough() {
@@ -260,6 +263,46 @@ func runC17(r *mc.Run) {
 				}
 			}
 		}
+		// "and for no other": every single-byte substitution (all 255 other values at every
+		// position), truncation and extension of the handed-out script(s) must be refused for the
+		// generating (key, address) (scripts do not depend on the network: first network only)
+		if j.net.name == c17Nets[0].name && (bytes.Equal(j.evm, evms[0]) || bytes.Equal(j.evm, evms[1])) {
+			verify := func(sc, data []byte) error {
+				if j.ver == 0 {
+					return bitcointypes.VerifyDespositScriptV0(j.k.Public(), j.evm, sc)
+				}
+				return bitcointypes.VerifyDespositScriptV1(j.k.Public(), j.mg, j.evm, sc, data)
+			}
+			try := func(what string, sc, data []byte) {
+				r.Transitions.Add(1)
+				c17ScriptMutations.Add(1)
+				if verify(sc, data) == nil {
+					c.Other = fmt.Sprintf("%s: script %x data %x", what, sc, data)
+					viol("verifier-accepts-other-script:"+strings.SplitN(what, "[", 2)[0], "a script other than the handed-out one is accepted for the same key and address")
+				}
+			}
+			mutate := func(name string, orig []byte, apply func(m []byte) (sc, data []byte)) {
+				for pos := range orig {
+					for v := 0; v < 256; v++ {
+						if byte(v) == orig[pos] {
+							continue
+						}
+						m := append([]byte{}, orig...)
+						m[pos] = byte(v)
+						sc, data := apply(m)
+						try(fmt.Sprintf("%s[%d]=%02x", name, pos, v), sc, data)
+					}
+				}
+				for _, m := range [][]byte{orig[:len(orig)-1], orig[1:], append(append([]byte{}, orig...), 0), append([]byte{0}, orig...)} {
+					sc, data := apply(append([]byte{}, m...))
+					try(name+":length", sc, data)
+				}
+			}
+			mutate("script", script, func(m []byte) ([]byte, []byte) { return m, resp.OpReturnScript })
+			if j.ver == 1 {
+				mutate("data-script", resp.OpReturnScript, func(m []byte) ([]byte, []byte) { return script, m })
+			}
+		}
 		if j.ver == 1 {
 			for _, mg2 := range magics {
 				if bytes.Equal(mg2, j.mg) {
@@ -291,6 +334,7 @@ func runC17(r *mc.Run) {
 		r.Outcome("off-curve-key-refused")
 	}
 
+	r.Extra["deposit_script_mutations_put_to_the_verifier"] = c17ScriptMutations.Load()
 	// ---- withdrawal addresses
 	addrs := c17WithdrawalAddrs()
 	symbols := []byte{'q', '2', 'z', 'Q'}
